@@ -320,6 +320,87 @@ def cell_of(evs, rvc):
     return {"rvc": rvc}
 
 
+def endnan_traces(tier):
+    """tables whose FIRST or LAST rows are non-finite: the table range is that of the rows kept, and the stretch between the
+    dropped end and the first kept abscissa is out of range -- it follows the side's mode (modes set BEFORE the table is
+    built, so no rebuild intervenes).  Real abscissae, outside the lattice model; judged by TEndNaN."""
+    from scipy.interpolate import CubicSpline
+    from WallGo import InterpolatableFunction, EExtrapolationType as E
+
+    traces = []
+    for rvc in (1, 2):
+        for side in ("lo", "hi"):
+            for nbad in ((1,) if tier == "quick" else (1, 3)):
+                evs = []
+                for mode in ("ERROR", "NONE", "CONSTANT", "FUNCTION"):
+                    a, b, n = -1.3, 2.9, 22
+                    xs_all = np.linspace(a, b, n)
+                    badx = xs_all[:nbad] if side == "lo" else xs_all[-nbad:]
+
+                    class F(InterpolatableFunction):
+                        def __init__(self):
+                            super().__init__(bUseAdaptiveInterpolation=False, initialInterpolationPointCount=10, returnValueCount=rvc)
+                            self.direct = []
+
+                        def truth(self, x):
+                            x = np.asarray(x, float)
+                            comps = [0.3 + 0.7 * x - 0.2 * x**2 + 0.05 * (j + 1) * x**3 for j in range(rvc)]
+                            return np.stack(comps, axis=-1) if rvc > 1 else comps[0]
+
+                        def _functionImplementation(self, x):
+                            x = np.asarray(x, float)
+                            v = np.array(self.truth(x), float, copy=True)
+                            bad = np.zeros(x.shape, bool)
+                            for bx in badx:
+                                bad |= np.abs(x - bx) < 1e-12
+                            if np.any(bad):
+                                if rvc > 1:
+                                    v[bad, 0] = np.inf
+                                else:
+                                    v = np.where(bad, np.nan, v)
+                            return v
+
+                        def _evaluateDirectly(self, x, bScheduleForInterpolation=True):
+                            self.direct.append(np.ravel(np.asarray(x, float)).copy())
+                            return super()._evaluateDirectly(x, bScheduleForInterpolation)
+
+                    f = F()
+                    f.setExtrapolationType(E[mode], E[mode])
+                    ev = {"e": "EndNaN", "side": side, "mode": mode, "rvc": rvc, "nbad": nbad, "rangeKept": False, "rule": "garbage", "drule": "garbage"}
+                    try:
+                        f.newInterpolationTable(a, b, n)
+                        kept = xs_all[nbad:] if side == "lo" else xs_all[:-nbad]
+                        ev["rangeKept"] = bool(f.interpolationRangeMin() == kept.min() and f.interpolationRangeMax() == kept.max())
+                        gap = 0.5 * (badx[-1] + kept[0]) if side == "lo" else 0.5 * (kept[-1] + badx[0])
+                        edge = kept[0] if side == "lo" else kept[-1]
+                        ref = CubicSpline(kept, f.truth(kept), extrapolate=True)
+                        for what in ("rule", "drule"):
+                            f.direct.clear()
+                            try:
+                                v = np.asarray(f(gap) if what == "rule" else f.derivative(gap, order=1), float)
+                            except ValueError:
+                                ev[what] = "raise"
+                                continue
+                            if what == "rule":
+                                cands = (("direct", None), ("boundary", ref(edge)), ("extrap", ref(gap)))
+                            else:
+                                cands = (("ddirect", None), ("dzero", 0.0 * ref(edge)), ("dextrap", ref(gap, 1)))
+                            got = "garbage"
+                            if f.direct and np.all(np.isfinite(v)):
+                                got = cands[0][0]
+                            else:
+                                for name, val in cands[1:]:
+                                    if np.all(np.isfinite(v)) and np.allclose(np.ravel(v), np.ravel(val), rtol=1e-9, atol=1e-12):
+                                        got = name
+                                        break
+                            ev[what] = got
+                    except Exception as ex:
+                        ev["exc"] = type(ex).__name__ + ": " + str(ex)[:100]
+                    evs.append(ev)
+                traces.append({"id": f"endnan_rvc{rvc}_{side}_n{nbad}", "ev": evs, "cell": {"kind": "endnan", "rvc": rvc, "side": side, "nbad": nbad}, "behaviour": []})
+    return traces
+
+
 def run(chk, tier, seed):
     res = tlc.run_model("InterpFn.tla", "InterpFn.cfg", coverage=(tier == "thorough"))
     chk.add_model(res, label="exhaustive L=6, MAXLEN=2: contract (rule matrix) in every reachable state")
@@ -357,6 +438,7 @@ def run(chk, tier, seed):
     if traces:
         chk.sample({"id": traces[0]["id"], "behaviour": traces[0]["behaviour"], "events": traces[0]["ev"][:4]})
         chk.sample({"id": traces[-1]["id"], "behaviour": traces[-1]["behaviour"]})
+    traces += endnan_traces(tier)
     vr = tlc.validate("TraceInterpFn.tla", "TraceInterpFn.cfg", traces)
     chk.add_validation(vr, traces)
     ops = {}
@@ -376,7 +458,12 @@ def replay(chk, path):
     with open(path) as f:
         tr = json.load(f)
     Fn = make_class()
-    if "behaviour" in tr:
+    if tr.get("cell", {}).get("kind") == "endnan":
+        new = [t for t in endnan_traces("thorough") if t["id"] == tr["id"]]
+        tr = new[0] if new else tr
+        for ev in tr["ev"]:
+            print(json.dumps(ev)[:400])
+    elif "behaviour" in tr:
         kind, rvc = tr["cell"]["kind"], tr["cell"]["rvc"]
         set_map(tr["cell"].get("map", 0))
         evs = replay_behaviour(Fn, tr["behaviour"], kind, rvc, tlc.scratch(), 0)
